@@ -453,6 +453,8 @@ def run(chk):
     chk.guard(rule_r4, chk)
     chk.guard(rule_r5, chk)
     chk.guard(rule_r6, chk)
+    from .. import args as _args
+    chk.guard(_args.apply, chk, "C01-R90", {'fords'}, 1)
     chk.assumptions = [
         "that the formulas built from the blocks are the Blanchard-Kahn solution (signs, factors inside well-shaped products), "
         "saddle-path stability of a given model and equation residuals of simulated paths are numerical: NOT decided",
